@@ -1054,9 +1054,13 @@ func (r *Reader) DocumentWithOptions(opts ExtractOptions) (*model.Document, erro
 		case ElementTable:
 			if elem.Table != nil && len(elem.Table.Rows) > 0 {
 				numRows := len(elem.Table.Rows)
+				// Rows differ in length when cells span rows or columns:
+				// size the grid by the longest row so that no cell is lost
 				numCols := 0
-				if numRows > 0 {
-					numCols = len(elem.Table.Rows[0])
+				for _, row := range elem.Table.Rows {
+					if len(row) > numCols {
+						numCols = len(row)
+					}
 				}
 
 				modelTable := model.NewTable(numRows, numCols)
